@@ -34,7 +34,7 @@ LR = (64, 128, 192, 254)
 
 def phases(tier):
     q = tier == "quick"
-    return [{"name": "scripts", "runs": 160 if q else 12000, "params": {"pairs": "sample" if q else "all"}}]
+    return [{"name": "scripts", "runs": 160 if q else 6000, "params": {"pairs": "sample" if q else "all"}}]
 
 
 def parse_dep_datagram(payload):
